@@ -16,6 +16,15 @@ Wrts == {<<"x", 0>>, <<"x", CNeg1>>, <<"x", 1>>, <<"y", 0>>, <<"y", CNeg1>>}
 \* evaluation point: x = 2, y = 3 at every shift (the steady state), p = 1/4
 Env == [k \in Wrts \cup {<<"p", 0>>} |-> IF k[1] = "x" THEN R(2) ELSE IF k[1] = "y" THEN R(3) ELSE Q(1, 4)]
 
+\* the same tree one period earlier (used as the right-hand side of a measurement equation, which may only refer to current and lagged states;
+\* the deepest lag of a variable then occurs in the measurement block only)
+RECURSIVE Sh(_, _)
+Sh(e, k) == CASE e[1] \in {"num", "par"} -> e
+              [] e[1] = "var" -> <<"var", e[2], e[3] + k>>
+              [] e[1] = "neg" -> <<"neg", Sh(e[2], k)>>
+              [] e[1] \in {"add", "sub", "mul", "div", "pow"} -> <<e[1], Sh(e[2], k), Sh(e[3], k)>>
+              [] e[1] = "fn" -> <<"fn", e[2], Sh(e[3], k)>>
+              [] e[1] \in {"fn2", "ufn"} -> <<e[1], e[2], Sh(e[3], k), Sh(e[4], k)>>
 Init == sc \in [kind : {"leaf"}, e : Leaves] \cup [kind : {"d1"}, e : T1] /\ out = <<>> /\ done = FALSE
 \* depth-2 trees are chosen in a second step so that all workers enumerate them
 Deepen == /\ sc.kind = "d1" /\ ~done /\ UNCHANGED <<out, done>>
@@ -24,7 +33,7 @@ Deepen == /\ sc.kind = "d1" /\ ~done /\ UNCHANGED <<out, done>>
 DeepenFn == /\ sc.kind = "d1" /\ ~done /\ UNCHANGED <<out, done>>
             /\ \E f \in Fns : sc' = [kind |-> "d2", e |-> <<"fn", f, sc.e>>]
 Compute == /\ ~done /\ done' = TRUE /\ UNCHANGED sc
-           /\ out' = [text |-> TreeText(sc.e), rational |-> Rational(sc.e), safe |-> IF Rational(sc.e) THEN Safe(sc.e, Env) ELSE TRUE,
+           /\ out' = [text |-> TreeText(sc.e), mtext |-> TreeText(Sh(sc.e, CNeg1)), rational |-> Rational(sc.e), safe |-> IF Rational(sc.e) THEN Safe(sc.e, Env) ELSE TRUE,
                       d |-> [w \in Wrts |-> D(sc.e, w)],
                       law |-> \A w \in Wrts : Law_RulesAgree(sc.e, Env, w)]
 Next == Deepen \/ DeepenFn \/ Compute
